@@ -49,7 +49,7 @@ class Module:
             self.tree = ast.parse(source, filename=relpath)
         except SyntaxError as exc:  # pragma: no cover
             raise AnalysisError(f'parse error in {relpath}: {exc}')
-        self.tree = split_conditional_callees(fold_dynamic_names(unroll_literal_loops(inline_string_constants(self.tree))))
+        self.tree = orient_comparisons(split_conditional_callees(fold_dynamic_names(unroll_literal_loops(inline_string_constants(self.tree)))))
         if os.environ.get('COPSTAT_INLINE_TEMPS', '1') != '0':
             self.tree = inline_adjacent_temporaries(self.tree)
         for node in ast.walk(self.tree):
@@ -92,6 +92,28 @@ def _constant_tables(tree):
             for k in [k for k in tables if k.endswith('.' + n.attr)]:
                 del tables[k]
     return tables
+
+
+def orient_comparisons(tree):
+    """Normalisation: a single comparison with a literal on the left and none on the right is written with the literal on the right
+    (`0 >= x` -> `x <= 0`, `1 == n` -> `n == 1`, `None is x` stays).  Behaviour-preserving for the numeric and array operands of
+    this package (the reflected operator is what Python evaluates)."""
+    flip = {ast.Lt: ast.Gt, ast.Gt: ast.Lt, ast.LtE: ast.GtE, ast.GtE: ast.LtE, ast.Eq: ast.Eq, ast.NotEq: ast.NotEq}
+
+    def lit(e):
+        if isinstance(e, ast.UnaryOp) and isinstance(e.op, (ast.USub, ast.UAdd)):
+            e = e.operand
+        return isinstance(e, ast.Constant) and isinstance(e.value, (int, float)) and not isinstance(e.value, bool)
+
+    class Orient(ast.NodeTransformer):
+        def visit_Compare(self, node):
+            self.generic_visit(node)
+            if len(node.ops) == 1 and type(node.ops[0]) in flip and lit(node.left) and not lit(node.comparators[0]):
+                return ast.copy_location(ast.Compare(left=node.comparators[0], ops=[flip[type(node.ops[0])]()], comparators=[node.left]), node)
+            return node
+    tree = Orient().visit(tree)
+    ast.fix_missing_locations(tree)
+    return tree
 
 
 def inline_adjacent_temporaries(tree):
@@ -151,6 +173,23 @@ def inline_adjacent_temporaries(tree):
                 d = stores if isinstance(x.ctx, (ast.Store, ast.Del)) else loads
                 d[x.id] = d.get(x.id, 0) + 1
         params = {a.arg for a in fn.args.posonlyargs + fn.args.args + fn.args.kwonlyargs}
+        # number of adjacent `t = e; return t` pairs per name: a name all of whose stores and loads are such pairs can be inlined
+        # at each of them (every return ends its path)
+        pairs = {}
+        for x in ast.walk(fn):
+            for f_ in ('body', 'orelse', 'finalbody'):
+                blk = getattr(x, f_, None)
+                if isinstance(blk, list):
+                    for s0, s1 in zip(blk, blk[1:]):
+                        if isinstance(s0, ast.Assign) and len(s0.targets) == 1 and isinstance(s0.targets[0], ast.Name) and isinstance(s1, ast.Return) \
+                                and isinstance(s1.value, ast.Name) and s1.value.id == s0.targets[0].id:
+                            pairs[s0.targets[0].id] = pairs.get(s0.targets[0].id, 0) + 1
+            if isinstance(x, ast.Try):
+                for h in x.handlers:
+                    for s0, s1 in zip(h.body, h.body[1:]):
+                        if isinstance(s0, ast.Assign) and len(s0.targets) == 1 and isinstance(s0.targets[0], ast.Name) and isinstance(s1, ast.Return) \
+                                and isinstance(s1.value, ast.Name) and s1.value.id == s0.targets[0].id:
+                            pairs[s0.targets[0].id] = pairs.get(s0.targets[0].id, 0) + 1
 
         def block(stmts):
             out = []
@@ -167,7 +206,7 @@ def inline_adjacent_temporaries(tree):
                 nxt = stmts[i + 1] if i + 1 < len(stmts) else None
                 if isinstance(s, ast.Assign) and len(s.targets) == 1 and isinstance(s.targets[0], ast.Name) and isinstance(nxt, ast.Return) and isinstance(nxt.value, ast.Name):
                     name = s.targets[0].id
-                    if name not in params and stores.get(name) == 1 and loads.get(name) == 1 and not isinstance(s.value, (ast.Lambda, ast.Yield, ast.YieldFrom, ast.Await, ast.NamedExpr)):
+                    if name not in params and stores.get(name) == loads.get(name) == pairs.get(name) and not isinstance(s.value, (ast.Lambda, ast.Yield, ast.YieldFrom, ast.Await, ast.NamedExpr)):
                         pure_before = True
                         found = False
                         for sub in eval_order(nxt.value):
